@@ -197,6 +197,28 @@ def constrained_cases_ext():
     bits = univ.BitString().subtype(explicitTag=tag.Tag(tag.tagClassContext, tag.tagFormatSimple, 4),
                                     subtypeSpec=constraint.ValueSizeConstraint(1, 20000))
     out.append(('[4] EXPLICIT BIT STRING (SIZE 1..20000)', bits, [('a40403020780', True), ('a403030100', False), ('03020780', False)]))
+
+    # values far beyond what the interpreter prints (int-to-str limit, 4300 digits): a violation is still a violation
+    def der_len(n):
+        if n < 128:
+            return bytes([n])
+        b = n.to_bytes((n.bit_length() + 7) // 8, 'big')
+        return bytes([0x80 | len(b)]) + b
+
+    def tlv(t, content):
+        return (bytes([t]) + der_len(len(content)) + content).hex()
+    huge = b'\x01' + b'\x00' * 2500                                   # 1 << 20000, about 6000 decimal digits
+    rng_int = univ.Integer().subtype(subtypeSpec=constraint.ValueRangeConstraint(0, 255))
+    out.append(('INTEGER (0..255), huge values', rng_int,
+                [(tlv(2, huge), False), (tlv(2, b'\xfe' + b'\xff' * 2500), False), (tlv(2, b'\x00\xff'), True)]))
+    single = univ.Integer().subtype(subtypeSpec=constraint.SingleValueConstraint(0, 1, 2))
+    out.append(('INTEGER (0|1|2), huge values', single, [(tlv(2, huge), False), (tlv(2, b'\x02'), True)]))
+    enum = univ.Enumerated(namedValues=univ.namedval.NamedValues(('a', 0), ('b', 1))).subtype(
+        subtypeSpec=constraint.SingleValueConstraint(0, 1))
+    out.append(('ENUMERATED {a(0), b(1)}, huge values', enum, [(tlv(10, huge), False), (tlv(10, b'\x01'), True)]))
+    small_bits = univ.BitString().subtype(subtypeSpec=constraint.ValueSizeConstraint(1, 64))
+    out.append(('BIT STRING (SIZE 1..64), huge values', small_bits,
+                [(tlv(3, b'\x00' + b'\xa5' * 2500), False), (tlv(3, b'\x00' + b'\xa5' * 8), True), (tlv(3, b'\x00' + b'\xa5' * 9), False)]))
     return out
 
 
